@@ -158,8 +158,10 @@ C15 = Prop(
                "width when no piece is too long to ever fit (width_format_padded, by induction over the word list with "
                "the remaining-space invariant), lifted to every option entry whose left column is <= 80 (width_entry) and "
                "to the synopsis for application names < 72 characters (width_synopsis) - the complements are the recorded "
-               "findings U2/U3, and about/group descriptions are never wrapped (U4); lines that do contain a forcing piece "
-               "are judged on the implementation's text only; the text does not depend on the target stream nor on "
+               "findings U2/U3, and about/group descriptions are never wrapped (U4); with no assumption on the words: every line "
+               "on which no never-fitting word was put keeps within the width (width_unless_forced, ghost fpLines tied to the "
+               "text by fpLines_lens); on the implementation's text a line over 80 must be at most 80 once its trailing "
+               "forcing pieces are taken off; the text does not depend on the target stream nor on "
                "whether the parser object was moved. Tied to the working tree by exact comparison of the text on three "
                "kinds of stream and three moved parsers.",
     level_note="Trusted: Lean kernel; propext/Classical.choice/Quot.sound; iostream width/tellp semantics and std::set<toggle*> "
